@@ -5,6 +5,8 @@ REV=""
 if [ "$1" = "-R" ]; then REV="-R"; shift; fi
 if ! git -C /repo diff --quiet; then echo "/repo has uncommitted changes"; exit 2; fi
 git -C /repo apply $REV "$PATCH" || { echo "patch does not apply"; exit 2; }
+# evidence files must describe runs on the unchanged tree: keep them aside while the patch is applied
+EVBAK=$(mktemp -d); cp -a /verif/evidence/. "$EVBAK"/
 for P in "$@"; do
     OUT=$(/verif/check "$P" "${TIER:-quick}" 2>/dev/null)
     RC=$?
@@ -12,5 +14,6 @@ for P in "$@"; do
     if [ -n "$VERBOSE" ]; then echo "$OUT" | tail -8; fi
 done
 git -C /repo checkout -- .
+cp -a "$EVBAK"/. /verif/evidence/; rm -rf "$EVBAK"
 # drop the replays written while the patch was applied
 git -C /verif status --short replays | awk '$1=="??"{print $2}' | xargs -r rm -rf
